@@ -247,6 +247,27 @@ def check_arrays(mod, col: Collector, tier: str):
                                 m = Mn()
                                 setattr(m, f, prefill)
                                 col.attempt(m, f"{f}={formname}(bad@{pos}:{bad!r},nan@{npos})", lambda: setattr(m, f, form(seq2)), "out", lambda: getattr(m, f)[:])
+                if tier == "thorough":
+                    # two bad elements: every pair of positions x every pair of out-of-domain values
+                    for p1, p2 in itertools.combinations(range(n), 2):
+                        for b1 in bads:
+                            for b2 in bads:
+                                seq = list(good)
+                                seq[p1], seq[p2] = b1, b2
+                                m = Mn()
+                                setattr(m, f, prefill)
+                                col.attempt(m, f"{f}={formname}(bad@{p1}:{b1!r},bad@{p2}:{b2!r})", lambda: setattr(m, f, form(seq)), "out", lambda: getattr(m, f)[:])
+                    # a bad element in a sequence whose other elements sit on the domain's edges
+                    edges = ([lo, hi, 0, -1 if lo < 0 else 1][:n]) if isint else [F32MAX if t == "float" else F64MAX, -0.0, NAN, 1.5][:n]
+                    for pos in range(n):
+                        for bad in bads:
+                            seq = list(edges)
+                            seq[pos] = bad
+                            m = Mn()
+                            setattr(m, f, prefill)
+                            col.attempt(m, f"{f}={formname}(edges,bad@{pos}:{bad!r})", lambda: setattr(m, f, form(seq)), "out", lambda: getattr(m, f)[:])
+                    m = Mn()
+                    col.attempt(m, f"{f}={formname}(edges)", lambda: setattr(m, f, form(edges)), "in", lambda: getattr(m, f)[:], [conv(x) for x in edges], cmpl)
                 if isint and n >= 3:
                     for mid in (2.5, 2.0, NAN, complex(2, 0)):
                         for pos in range(1, n):
@@ -281,6 +302,35 @@ def check_arrays(mod, col: Collector, tier: str):
             ct = getattr(ctypes, "c_" + t) * n
             m = Mn()
             col.attempt(m, f"{f}=ctypes_array", lambda: setattr(m, f, ct(*good)), "in", lambda: getattr(m, f)[:], [conv(x) for x in good], cmpl)
+            # ctypes arrays of every OTHER element type: what counts is the values they carry, not the width of the carrier
+            for t2 in list(valx.INT_TYPES) + list(valx.FLOAT_TYPES):
+                if t2 == t:
+                    continue
+                ct2 = getattr(ctypes, "c_" + t2) * n
+                if t2 in valx.INT_TYPES:
+                    lo2, hi2 = valx.int_bounds(t2)
+                    specials = [lo2, hi2]
+                    base2 = [1, 2, 3, 4][:n]
+                else:
+                    specials = [INF, -1.0, F32MAX if t2 == "float" else F64MAX, 2.0]
+                    base2 = [1.0, 2.0, 3.0, 4.0][:n]
+                carried = [list(base2)]
+                for sp in specials:
+                    for pos in (0, n - 1):
+                        seq = list(base2)
+                        seq[pos] = sp
+                        carried.append(seq)
+                for seq in carried:
+                    src_arr = ct2(*seq)
+                    pyvals = list(src_arr)
+                    vds = [verdict(v) for v in pyvals]
+                    vd = "in" if all(x == "in" for x in vds) else ("out" if "out" in vds else "unspecified")
+                    for how in ("whole", "slice"):
+                        m = Mn()
+                        setattr(m, f, prefill)
+                        arr = getattr(m, f)
+                        act = (lambda: setattr(m, f, src_arr)) if how == "whole" else (lambda: arr.__setitem__(slice(0, n), src_arr))
+                        col.attempt(m, f"{f}={how}:ctypes({t2})({seq!r})", act, vd, lambda: getattr(m, f)[:], [conv(x) for x in pyvals] if vd == "in" else None, cmpl)
             # slices: every (start, stop, step), right / wrong length, good / one bad element
             for sl in slices(n):
                 idx = list(range(n))[sl]
@@ -296,12 +346,13 @@ def check_arrays(mod, col: Collector, tier: str):
                             lambda: getattr(m, f)[:], [conv(x) for x in exp], cmpl)
                 if k:
                     for pos in ((0, k - 1) if tier == "quick" else range(k)):
+                      for bad in (bads[:1] if tier == "quick" else bads):
                         r2 = list(repl)
-                        r2[pos] = bads[0]
+                        r2[pos] = bad
                         m = Mn()
                         setattr(m, f, prefill)
                         arr = getattr(m, f)
-                        col.attempt(m, f"{f}[{sl.start}:{sl.stop}:{sl.step}]=bad@{pos}", lambda: arr.__setitem__(sl, r2), "out", lambda: getattr(m, f)[:])
+                        col.attempt(m, f"{f}[{sl.start}:{sl.stop}:{sl.step}]=bad@{pos}:{bad!r}", lambda: arr.__setitem__(sl, r2), "out", lambda: getattr(m, f)[:])
                 m = Mn()
                 setattr(m, f, good)
                 arr = getattr(m, f)
